@@ -141,4 +141,98 @@ Section Complete.
     destruct (read_all H comb fixed fuel (mkBase evs None) (d_dg d) (Z.of_nat (length (stream evs)))) as [[e buf] v].
     simpl in C. inversion C; subst. reflexivity.
   Qed.
+
+  (* ---------------------------------------------------------------- CopyBuffer, any buffer size *)
+  Lemma clamp_pos k n : 1 <= k -> (0 < n)%Z -> 1 <= clamp k n.
+  Proof. unfold clamp. intros. destruct (Z.of_nat k >? n)%Z; lia. Qed.
+
+  Lemma copy_loop_exact bufsz : 1 <= bufsz -> forall fuel evs out N,
+    nfail evs = 0 -> ev_weight evs < fuel -> N = Z.of_nat (length (stream evs)) ->
+    exists evs',
+      copy_loop comb fuel (mkVr (mkBase evs None) N out None false) bufsz out
+      = ((None, out ++ stream evs), mkVr (mkBase evs' None) 0 (out ++ stream evs) (Some EEof) false) /\
+      stream evs' = [] /\ nfail evs' = 0 /\ length evs' <= length evs.
+  Proof.
+    intro B1. induction fuel as [|f IH]; intros evs out N NF Fu EN; [lia|].
+    cbn [copy_loop]. unfold vr_read at 1. cbn [v_err v_N v_base v_hashed v_verified].
+    destruct (N <=? 0)%Z eqn:N0.
+    - (* everything copied: the LimitedReader reports EOF *)
+      assert (ES : stream evs = []).
+      { apply Z.leb_le in N0. destruct (stream evs); [reflexivity|simpl in EN; lia]. }
+      rewrite ES in *. simpl in EN. subst N. rewrite !app_nil_r. exists evs. repeat split; auto.
+    - apply Z.leb_gt in N0.
+      pose proof (clamp_pos bufsz N B1 N0) as K1. pose proof (clamp_le bufsz N N0) as [_ K2].
+      remember (clamp bufsz N) as k eqn:Ek. clear Ek.
+      unfold base_read. cbn [b_lim b_evs].
+      destruct evs as [|[d| |] r].
+      + simpl in EN. lia.
+      + simpl in NF, Fu, EN. cbn [script_read].
+        destruct (length d <=? k) eqn:Ld.
+        * apply Nat.leb_le in Ld.
+          assert (Rest : (N - Z.of_nat (length d) = Z.of_nat (length (stream r)))%Z).
+          { subst N. rewrite app_length. lia. }
+          assert (Go : exists evs',
+                     copy_loop comb f (mkVr (mkBase r None) (Z.of_nat (length (stream r))) (out ++ d) None false) bufsz (out ++ d)
+                     = ((None, out ++ stream (Data d :: r)), mkVr (mkBase evs' None) 0 (out ++ stream (Data d :: r)) (Some EEof) false) /\
+                     stream evs' = [] /\ nfail evs' = 0 /\ length evs' <= length (Data d :: r)).
+          { destruct (IH r (out ++ d) (Z.of_nat (length (stream r))) NF) as (evs' & E1 & E2 & E3 & E4); [lia|reflexivity|].
+            exists evs'. simpl stream. rewrite app_assoc. split; [exact E1|]. repeat split; auto. simpl; lia. }
+          destruct comb eqn:Cb.
+          -- destruct r as [|[d'| |] r'].
+             ++ simpl in Rest. rewrite Rest. cbn [is_eof andb Z.gtb Z.compare set_err v_base v_N v_hashed v_verified].
+                exists []. simpl stream. rewrite app_nil_r. repeat split; auto; simpl; lia.
+             ++ rewrite Rest. exact Go.
+             ++ rewrite Rest. exact Go.
+             ++ simpl in NF. discriminate.
+          -- rewrite Rest. exact Go.
+        * apply Nat.leb_gt in Ld.
+          assert (Lf : length (firstn k d) = k) by (apply firstn_length_le; lia).
+          rewrite Lf.
+          destruct (IH (Data (skipn k d) :: r) (out ++ firstn k d) (N - Z.of_nat k)%Z) as (evs' & E1 & E2 & E3 & E4).
+          -- exact NF.
+          -- simpl. rewrite skipn_length. lia.
+          -- subst N. simpl. rewrite !app_length, skipn_length. lia.
+          -- exists evs'. simpl stream in *. rewrite <- app_assoc in E1.
+             rewrite (app_assoc (firstn k d)), firstn_skipn in E1.
+             split; [exact E1|]. repeat split; auto.
+      + simpl in NF, Fu, EN. cbn [script_read length app]. rewrite Z.sub_0_r, app_nil_r.
+        destruct (IH r out N NF) as (evs' & E1 & E2 & E3 & E4); [lia|exact EN|].
+        exists evs'. simpl stream. split; [exact E1|]. repeat split; auto; try (simpl; lia).
+      + simpl in NF. discriminate.
+  Qed.
+
+  Theorem copy_buffer_complete fuel evs bufsz dg :
+    1 <= bufsz -> nfail evs = 0 -> valid_digest dg = true -> dg = digest_of H (alg_of dg) (stream evs) ->
+    ev_weight evs < fuel ->
+    fst (copy_buffer H comb true fuel (mkBase evs None) bufsz dg (Z.of_nat (length (stream evs))))
+    = (None, stream evs).
+  Proof.
+    intros B1 NF V D Fu. pose proof (length_le_weight evs) as LW.
+    unfold copy_buffer, new_vr, new_vr_gen.
+    assert (Z0 : (Z.of_nat (length (stream evs)) <? 0)%Z = false) by (apply Z.ltb_ge; lia).
+    rewrite V, Z0. cbn [negb andb].
+    destruct (copy_loop_exact bufsz B1 fuel evs [] _ NF Fu eq_refl) as (evs' & E1 & E2 & E3 & E4).
+    rewrite E1. cbn [app].
+    unfold vr_verify. cbn [v_verified v_err v_N v_base v_hashed].
+    destruct (ensure_eof_exhausted evs' fuel (stream evs) E2 E3) as (b' & Ee); [lia|].
+    unfold ensure_eof. rewrite Ee. cbn [negb].
+    assert (Vd : verified H dg (stream evs) = true).
+    { unfold verified. rewrite <- D. apply str_eqb_refl. }
+    rewrite Vd. reflexivity.
+  Qed.
+
+  Lemma oci_bufsz_pos : 1 <= oci_bufsz.
+  Proof. apply Nat.leb_le. vm_compute. reflexivity. Qed.
+
+  Theorem oci_push_complete fuel s d evs :
+    oci_get s (d_dg d) = None -> nfail evs = 0 -> valid_digest (d_dg d) = true ->
+    d_dg d = digest_of H (alg_of (d_dg d)) (stream evs) -> d_sz d = Z.of_nat (length (stream evs)) ->
+    ev_weight evs < fuel ->
+    oci_push H comb true fuel s d (mkBase evs None) = (None, (d_dg d, stream evs) :: s).
+  Proof.
+    intros G NF V D Sz Fu. unfold oci_push. rewrite V, G, Sz. cbn [negb].
+    pose proof (copy_buffer_complete fuel evs oci_bufsz (d_dg d) oci_bufsz_pos NF V D Fu) as C.
+    destruct (copy_buffer H comb true fuel (mkBase evs None) oci_bufsz (d_dg d) (Z.of_nat (length (stream evs)))) as [[e out] v].
+    simpl in C. inversion C; subst. reflexivity.
+  Qed.
 End Complete.
